@@ -4,6 +4,7 @@ import (
 	"flag"
 	"fmt"
 	"os"
+	"path/filepath"
 	"runtime"
 	"runtime/debug"
 	"sort"
@@ -126,6 +127,9 @@ func main() {
 		r := newReport(id, *tier, seed, *verif)
 		if *out != "" {
 			r.outDir = *out
+		} else if *only != "" || *noFx || *mutantSpec != "" {
+			// debug / self-test runs are partial: never overwrite the real evidence files
+			r.outDir = filepath.Join(os.TempDir(), "lvcheck-debug-evidence")
 		}
 		if err != nil {
 			r.Begin(id+".load", "LOAD", "the repository loads and type-checks (linux/amd64, no tests)", 0)
